@@ -13,7 +13,7 @@ res = {}
 for sid in ids:
     d = os.path.join(HERE, "seeded", sid)
     meta = json.load(open(os.path.join(d, "meta.json")))
-    wt = f"/tmp/da_seeded_{sid}"
+    wt = f"/tmp/da_seeded_{sid}_{os.getpid()}"
     subprocess.run(["git", "-C", "/repo", "worktree", "remove", "--force", wt], capture_output=True)
     r = subprocess.run(["git", "-C", "/repo", "worktree", "add", "--detach", wt, "HEAD"], capture_output=True, text=True)
     assert r.returncode == 0, r.stderr
